@@ -6,7 +6,7 @@ ID = "C02"
 THEOREM_FILE = "Properties/C02.v"
 COQ_PROP_OK = "(fun c => C02_ok (s_complete (fst c)) (snd c))"
 RULE = ("seeded whole-system runs ending by a shutdown command at a random position of a pause/resume/save history (incl. while paused, right after a pause request, back to back), "
-        "by the uptime limit, or by a KeyboardInterrupt at a random control tick or before a random synchronisation operation of the control loop (anywhere but in the worker-pool section of try_pause and inside a state save); random step/training/hook durations; random and PCT schedules. 30% of the runs use a time scale of 2, 4, 10 or 1/2. Checked per run: launch() returned, no deadlock, a pause attempt that fails has waited the configured timeout in real seconds, "
+        "by the uptime limit, or by a KeyboardInterrupt at a random control tick or before a random synchronisation operation of the control loop (anywhere but in the worker-pool section of try_pause and inside a state save); random step/training/hook durations; random and PCT schedules. 30% of the runs use a time scale of 2, 4, 10 or 1/2, 15% have no trainer at all (these are judged by the harness-side clauses only: the thread model describes a training thread with trainers). Checked per run: launch() returned, no deadlock, a pause attempt that fails has waited the configured timeout in real seconds, "
         "both threads exited, final state after the last callback, clock running at scale 1, and a pause attempt fails only if a callback was still in flight when its timeout fired. "
         "30% of the runs ended by a command or the uptime limit get a keyboard interrupt in the middle of that shutdown. Non-trivial = the shutdown (or interrupt / uptime) arrived while the system was paused or a pause was in flight; distinct = canonical JSON.")
 TRUSTED = B.TRUSTED_SYS
@@ -36,6 +36,8 @@ def gen_one(rng, seed):
         else:
             sp["interrupt_at_op"] = rng.randint(1, 300)      # before any synchronisation operation of the control loop
         sp["cmds"] += [["sleep", 0.5], ["shutdown", "retry"]]
+    if rng.random() < 0.15:
+        sp["no_trainers"] = True      # an inference-only system: the training thread runs all the same and takes part in every pause
     if "time_scale" not in sp and rng.random() < 0.3:
         # a clock that runs faster or slower than real time: the pause timeout is counted in real seconds all the same
         sp["time_scale"] = rng.choice([2.0, 4.0, 10.0, 0.5])
@@ -117,6 +119,10 @@ def precheck(case, obs):
     ok = d[2] == "returned" and d[3] is False and d[4] == 1.0 and first_attempt_ok(obs, case) and not attempt_given_up_early(obs, case)
     if not ok:
         return {"agree": True, "prop_ok": False}
+    if case.get("no_trainers"):
+        # an inference-only system: the thread model describes a training thread that has trainers (with pause / resume hooks),
+        # so these runs are judged by the clauses above only (harness-side), not by trace inclusion
+        return {"agree": True, "prop_ok": True}
     return None
 
 
